@@ -287,6 +287,13 @@ def big_plains(rng, quick):
     out.append(b"\0" * 1000000)                                                   # long runs
     out.append(bytes(rng.below(4) for _ in range(100001)))                     # just over one chunk
     out.append(bytes(rng.below(256) for _ in range(99999)) + b"zzzzzz")        # run across the chunk boundary
+    # a block that compresses slowly followed by many that compress fast (index 5 -> -n16? no: keep it at a small worker count, see
+    # run_compress: worker count = nworkers[index % 6]; two copies so that -n2/-n3/-n4 are among them): the fast blocks must not take
+    # the output slots the slow one needs
+    slowfast = bytes(rng.below(256) for _ in range(100000)) + b"\0" * 2400000
+    out.insert(1, slowfast)
+    out.insert(2, slowfast)
+    out.insert(3, slowfast)
     if not quick:
         out.append(bytes(rng.below(7) for _ in range(2000000)))
         a, b = b"a", b"ab"
